@@ -568,3 +568,114 @@ func dumpBody(sb *strings.Builder, b *Body) {
 	}
 	sb.WriteString("}")
 }
+
+// FreeVars returns the set of variable names that occur free in n (names bound by
+// enclosing for expressions / template for directives are excluded; the collection
+// expression of a for is evaluated in the enclosing scope).
+func FreeVars(n Node) map[string]bool {
+	out := map[string]bool{}
+	freeVars(n, map[string]int{}, out)
+	return out
+}
+
+func withBound(bound map[string]int, names []string, f func()) {
+	for _, n := range names {
+		if n != "" {
+			bound[n]++
+		}
+	}
+	f()
+	for _, n := range names {
+		if n != "" {
+			bound[n]--
+		}
+	}
+}
+
+func freeVars(n Node, bound map[string]int, out map[string]bool) {
+	switch x := n.(type) {
+	case nil:
+	case Var:
+		if bound[x.Name] == 0 {
+			out[x.Name] = true
+		}
+	case Tuple:
+		for _, e := range x.Elems {
+			freeVars(e, bound, out)
+		}
+	case Object:
+		for _, it := range x.Items {
+			if it.Kind != KeyIdent {
+				freeVars(it.Key, bound, out)
+			}
+			freeVars(it.Val, bound, out)
+		}
+	case Call:
+		for _, a := range x.Args {
+			freeVars(a, bound, out)
+		}
+	case For:
+		freeVars(x.Coll, bound, out)
+		withBound(bound, []string{x.KeyVar, x.ValVar}, func() {
+			if x.Key != nil {
+				freeVars(x.Key, bound, out)
+			}
+			freeVars(x.Val, bound, out)
+			if x.Cond != nil {
+				freeVars(x.Cond, bound, out)
+			}
+		})
+	case Index:
+		freeVars(x.Coll, bound, out)
+		freeVars(x.Key, bound, out)
+	case LegacyIndex:
+		freeVars(x.Coll, bound, out)
+	case GetAttr:
+		freeVars(x.Obj, bound, out)
+	case Splat:
+		freeVars(x.Src, bound, out)
+		for _, s := range x.Steps {
+			if s.Kind == StepIndex {
+				freeVars(s.Key, bound, out)
+			}
+		}
+	case Unary:
+		freeVars(x.X, bound, out)
+	case Binary:
+		freeVars(x.L, bound, out)
+		freeVars(x.R, bound, out)
+	case Cond:
+		freeVars(x.P, bound, out)
+		freeVars(x.T, bound, out)
+		freeVars(x.F, bound, out)
+	case Paren:
+		freeVars(x.X, bound, out)
+	case Template:
+		freeVarsParts(x.Parts, bound, out)
+	}
+}
+
+// FreeVarsParts is FreeVars for stand-alone template parts.
+func FreeVarsParts(parts []TPart) map[string]bool {
+	out := map[string]bool{}
+	freeVarsParts(parts, map[string]int{}, out)
+	return out
+}
+
+func freeVarsParts(parts []TPart, bound map[string]int, out map[string]bool) {
+	for _, p := range parts {
+		switch x := p.(type) {
+		case TInterp:
+			freeVars(x.X, bound, out)
+		case TIf:
+			freeVars(x.Cond, bound, out)
+			freeVarsParts(x.Then, bound, out)
+			freeVarsParts(x.Else, bound, out)
+		case TFor:
+			freeVars(x.Coll, bound, out)
+			withBound(bound, []string{x.KeyVar, x.ValVar}, func() {
+				freeVarsParts(x.Body, bound, out)
+			})
+		}
+	}
+}
